@@ -445,6 +445,15 @@ def check(ctx):
     else:
         o.witness('run-export')
         o.witness('dump')
+    # the trace table and its running index exist before the first traced step: both are given their initial value where the environment is (re)set
+    for a_, init_ok in (('_event_trace', lambda v: isinstance(v, ast.Dict) and not v.keys), ('_event_index', lambda v: isinstance(v, ast.Constant) and v.value == 0)):
+        o.count()
+        ini = [s_ for s_ in inv.attr_stores(P, a_) if s_.cls is Env and s_.func.name in inv.covered(P, {'_reset', '__init__'}) and isinstance(s_.stmt, ast.Assign) and init_ok(s_.stmt.value)]
+        if not ini:
+            o.fail(P, 'Environment._reset', f'self.{a_} = ' + ('{}' if a_ == '_event_trace' else '0'), f'Environment.{a_} is not given its initial value when the environment is set up: the first traced '
+                   'step fails, or the trace starts at another index', file=Env.mod.path, line=Env.node.lineno)
+        else:
+            o.witness(('initial', a_))
     for a_, owners in (('_event_trace', {'_reset'}), ('_event_index', {'_reset', '_trace_event', 'step'}), ('_trace', {'_reset', 'run'})):
         for s in inv.attr_stores(P, a_):
             o.count()
